@@ -1,7 +1,7 @@
 """Operations on symbolic values (truthiness, equality, arithmetic, containers)."""
 import z3
 
-from core import (KBits, KTotal, SVal, TupleVal, LocalDict, KInt, KReal, KBool, KStr, KName, KRef, KEnum,
+from core import (KAny, KBits, KTotal, SVal, TupleVal, LocalDict, KInt, KReal, KBool, KStr, KName, KRef, KEnum,
                   KOpt, KExt, KExtReal, KTuple, KVec, KVec3, KList, KDict, KSet, KCounter,
                   CheckerError, fresh_val, fresh_name, Kind, FuncVal, ClassVal, ModuleVal, I, R, B, S)
 
@@ -179,6 +179,9 @@ def coerce(v, kind):
         a = _atom(v.z)
         add_axiom(z3.And(_name_str(a) == v.z, a > 0))
         return SVal(KName, [a])
+    if k == KAny and kind == KReal:
+        # a number stored in an opaque payload: decoded by the uninterpreted tok_real
+        return SVal(KReal, [z3.Function('tok_real', I, R)(v.t[0])])
     raise CheckerError('cannot coerce %r to %r' % (k, kind))
 
 
@@ -263,6 +266,10 @@ def truthy(v):
         return nonempty(v.t[0])
     if isinstance(k, KTuple):
         return len(k.items) > 0
+    if k == KAny:
+        # an opaque payload: falsy exactly when it is the empty value (None, {}, '', 0): tok_empty (uninterpreted; a
+        # contract module that needs it declares the same symbol with ufunc('tok_empty', ['Any'], 'Bool'))
+        return z3.Not(z3.Function('tok_empty', I, z3.BoolSort())(v.t[0]))
     raise CheckerError('truthiness of %r' % k)
 
 
